@@ -15,8 +15,8 @@ def main():
     thorough = c.tier == "thorough"
     rng = random.Random(c.seed)
     exe = pv.harness("plain", "pv_driver")
-    open(pv.SPEC + "/OperatorAlgebraCAR.cfg", "w").write("SPECIFICATION Spec\nCONSTANTS\n  NM = %d\n  MaxLen = 0\nINVARIANTS CARHolds\nCHECK_DEADLOCK FALSE\n" % (4 if thorough else 3))
-    r = pv.run_tlc("OperatorAlgebraMC", "OperatorAlgebraCAR", workers=2, timeout=1200)
+    open(pv.SPEC + "/OperatorAlgebraCAR10.cfg", "w").write("SPECIFICATION Spec\nCONSTANTS\n  NM = %d\n  MaxLen = 0\nINVARIANTS CARHolds\nCHECK_DEADLOCK FALSE\n" % (4 if thorough else 3))
+    r = pv.run_tlc("OperatorAlgebraMC", "OperatorAlgebraCAR10", workers=2, timeout=1200)
     c.add_tlc(r, "CAR")
     if r.violated:
         pv.log("INFRA: Fermion.tla violates CAR")
@@ -41,7 +41,7 @@ def main():
         if rng.random() < 0.5 or thorough:
             cands = models.linear_candidates(rng, m)
             add(m, {"mode": "custom", "ops": rng.sample(cands, rng.randint(1, min(2, len(cands))))})
-    recs, crashed = pv.run_driver_resilient(exe, scen, timeout=3000)
+    recs, crashed = pv.run_driver_resilient(exe, scen, timeout=3000, scen_timeout=180)
     byid = {r["id"]: r for r in recs if r.get("e") == "Q"}
     ev, sc_of = [], {}
     for s in scen:
